@@ -819,8 +819,15 @@ func (f *filterQuery) Select(t iterator) NodeNavigator {
 		}
 		node = node.Copy()
 
+		// The predicate is evaluated with the candidate as context node; afterwards
+		// the context goes back to where it was, so that whatever is evaluated next
+		// to this step (a later argument of the same function call, say) still sees
+		// its own context node and not the last candidate tested here.
+		saved := t.Current().Copy()
 		t.Current().MoveTo(node)
-		if f.do(t) {
+		ok := f.do(t)
+		t.Current().MoveTo(saved)
+		if ok {
 			// fix https://github.com/antchfx/htmlquery/issues/26
 			// Calculate and keep the each of matching node's position in the same depth.
 			level := getNodeDepth(f.Input)
